@@ -638,17 +638,21 @@ BACK = {
 }
 
 
-def h_connect_back(c, outcome, shape='full'):
+PRE_USER, PRE_TYPE = 'ab', 'P'
+PRE_STATES = ('none', 'same_user_same_type', 'same_user_other_type', 'other_user_same_type')
+
+
+def h_connect_back(c, outcome, shape='full', pre='none', via='accepted'):
     loop = SLoop()
     try:
         with environment(c, loop) as (g, wr, tap):
-            _connect_back(c, loop, g, wr, tap, outcome, shape)
+            _connect_back(c, loop, g, wr, tap, outcome, shape, pre, via)
     finally:
         loop.cleanup()
 
 
-def _connect_back(c, loop, g, wr, tap, outcome, shape):
-    sig = [outcome, shape]
+def _connect_back(c, loop, g, wr, tap, outcome, shape, pre, via):
+    sig = [outcome, shape] + ([pre, via] if pre != 'none' else [])
     o_kind, o_delay, o_drain = BACK[outcome]
     prefer = bool(c.fresh_bool('prefer_obfuscated'))
     m = {'username': g.text('ctp.username', 2), 'typ': g.text('ctp.typ', 1), 'ip': g.ip('ctp.ip'), 'port': g.word('ctp.port', 32),
@@ -656,14 +660,48 @@ def _connect_back(c, loop, g, wr, tap, outcome, shape):
     if shape == 'full':
         m.update(obfuscated_port_amount=g.word('ctp.obfuscated_port_amount', 32), obfuscated_port=g.word('ctp.obfuscated_port', 32))
     g.commit()
+    # pre-state: we already hold an ESTABLISHED connection (PRE_USER, PRE_TYPE); how the symbolic user / type of the new request
+    # relate to it is the discriminant.  The ticket (and everything else) of the request is independent of that connection.
+    if pre == 'same_user_same_type':
+        c.assume(m['username'] == PRE_USER)
+        c.assume(m['typ'] == PRE_TYPE)
+    elif pre == 'same_user_other_type':
+        c.assume(m['username'] == PRE_USER)
+        c.assume(m['typ'] != PRE_TYPE)
+    elif pre == 'other_user_same_type':
+        c.assume(m['username'] != PRE_USER)
+        c.assume(m['typ'] == PRE_TYPE)
     obf = m.get('obfuscated_port', 0)
     target_port, use_obf = ref_select(m['port'], obf, prefer)
     target_port32 = target_port if isinstance(target_port, int) else bv(target_port, 32)
     can_connect = z_and(port_usable(target_port32), o_kind == 'ok', o_drain == 'ok')
 
-    world = World(c, loop, wr, 'race', prefer)
+    world = World(c, loop, wr, 'fallback' if via == 'requested' else 'race', prefer)
     world.start()
     net = world.net
+    earlier = None
+    if pre != 'none':
+        # built through the real code: either a peer connected to us and sent PeerInit (accept -> on_peer_accepted), or we opened
+        # it ourselves with a completed create_peer_connection (direct attempt, address given by the caller)
+        if via == 'accepted':
+            r0, w0, _ = world.incoming(False, peer=('6.6.6.6', 6000))
+            r0.feed_data(ref_frame('PeerInit.Request', username=PRE_USER, typ=PRE_TYPE, ticket=0))
+            loop.run_ready()
+            earlier = world.conn_of(r0)
+        else:
+            wr.script = lambda a: ('ok', 0)
+            earlier = loop.run_until_complete(net.create_peer_connection(PRE_USER, PRE_TYPE, ip='6.6.6.6', port=6000))
+            loop.run_ready()
+        pre_ok = (earlier is not None and net.peer_connections == [earlier] and earlier.state == ConnectionState.CONNECTED
+                  and earlier.connection_state == PeerConnectionState.ESTABLISHED and earlier.username == PRE_USER
+                  and earlier.connection_type == PRE_TYPE and world.reader_alive(earlier)
+                  and net.get_active_peer_connections(PRE_USER, PRE_TYPE) == [earlier])
+        if not c.check(pre_ok, 'earlier_connection_established', sig=sig):
+            return
+        c.reach('earlier_connection_' + pre)
+    n_att0, n_srv0, n_init0 = len(wr.attempts), len(world.server_writer.written), len(world.inits)
+    w_earlier = earlier._writer if earlier is not None else None
+    n_w0 = len(w_earlier.written) if w_earlier is not None else 0
 
     def attempt_script(a):
         return o_kind, o_delay
@@ -678,23 +716,35 @@ def _connect_back(c, loop, g, wr, tap, outcome, shape):
         pass
     harness_errors(world, tap)
     c.reach('connect_back_end')
-    attempts = wr.attempts[1:]
+    if earlier is not None:
+        c.check(net.peer_connections.count(earlier) == 1 and earlier.state == ConnectionState.CONNECTED
+                and earlier.connection_state == PeerConnectionState.ESTABLISHED and not w_earlier.closed and world.reader_alive(earlier)
+                and len(w_earlier.written) == n_w0, 'earlier_connection_left_alone', sig=sig,
+                info={'state': earlier.state.name, 'registered': net.peer_connections.count(earlier), 'written': len(w_earlier.written) - n_w0})
+    attempts = wr.attempts[n_att0:]
     if any(a.outcome == 'overflow' for a in attempts):
         c.reach('port_beyond_65535_rejected')
     if not c.check(len(attempts) == 1, 'connect_back_attempted_once', sig=sig, info=len(attempts)):
+        if not attempts:
+            # nothing was attempted: then the peer got no pierce-firewall message, so the server must have been told
+            n_rep = len([d for d in world.server_writer.written[n_srv0:] if frame_code(d) == 1001])
+            c.reach('connect_back_judged')
+            c.check(z_and(z_not(can_connect), n_rep == 1), 'peer_gets_pierce_firewall_or_server_gets_cannot_connect', sig=sig,
+                    info={'pierce_frames': 0, 'cannot_connect_reports': n_rep})
         return
     a = attempts[0]
     host_ok = z_and(*[w_eq(x, y, 8) for x, y in zip(c11env.ip_terms(a.host), c11env.ip_terms(m['ip']))])
     c.check(z_and(host_ok, w_eq(0 if a.port is None else a.port, target_port32)), 'connect_back_goes_to_selected_address', sig=sig)
     # exactly one of: pierce-firewall message to the peer / cannot-connect report to the server
-    reports = [d for d in world.server_writer.written if frame_code(d) == 1001]
-    others = [d for d in world.server_writer.written if frame_code(d) != 1001]
+    reports = [d for d in world.server_writer.written[n_srv0:] if frame_code(d) == 1001]
+    others = [d for d in world.server_writer.written[n_srv0:] if frame_code(d) != 1001]
     delivered = [d for d in (a.writer.written if a.writer is not None else []) if o_drain == 'ok']
     c.check(not others, 'connect_back_sends_nothing_else', sig=sig)
+    c.reach('connect_back_judged')
     c.check(z_and(can_connect if delivered else z_not(can_connect), len(delivered) + len(reports) == 1),
             'peer_gets_pierce_firewall_or_server_gets_cannot_connect', sig=sig,
             info={'pierce_frames': len(delivered), 'cannot_connect_reports': len(reports)})
-    conns = [cn for cn in net.peer_connections]
+    conns = [cn for cn in net.peer_connections if cn is not earlier]
     if delivered:
         c.reach('pierced')
         plain = ref_frame('PeerPierceFirewall.Request', ticket=m['ticket'])
@@ -720,7 +770,7 @@ def _connect_back(c, loop, g, wr, tap, outcome, shape):
         if reports:
             c.check(bytes_equal(reports[0], ref_frame('CannotConnect.Request', ticket=m['ticket'], username=m['username'])),
                     'cannot_connect_echoes_ticket_and_name', sig=sig)
-        c.check(not conns and (a.writer is None or a.writer.closed) and not world.inits, 'failed_connect_back_leaves_nothing', sig=sig,
+        c.check(not conns and (a.writer is None or a.writer.closed) and not world.inits[n_init0:], 'failed_connect_back_leaves_nothing', sig=sig,
                 info={'registered': len(conns), 'socket_open': a.writer is not None and not a.writer.closed})
     left = [q for q, s, t in world.tasks[n_tasks0:] if not t.done() and not (q.endswith('_message_reader_loop') and s in conns)]
     c.check(not net._create_peer_connection_tasks and not left and waiters_of(net) == (0, 0), 'connect_back_leaves_no_task', sig=sig,
@@ -743,7 +793,14 @@ def h_select_port(c):
     g = codec.Gen(c)
     clear, obf = g.word('clear_port', 32), g.word('obfuscated_port', 32)
     net = types.SimpleNamespace(_settings=types.SimpleNamespace(network=types.SimpleNamespace(peer=types.SimpleNamespace(obfuscate=prefer))))
-    port, flag = Network.select_port(net, clear, obf)
+    c.reach('select_port_called')
+    try:
+        port, flag = Network.select_port(net, clear, obf)
+    except Exception as e:  # noqa
+        # the callers use the result outside any try block (connect-back: before CannotConnect can be reported)
+        c.check(False, 'select_port_returns_a_choice', sig=[type(e).__name__], info=repr(e))
+        return
+    c.check(True, 'select_port_returns_a_choice')
     c.reach('selected')
     ref_port, ref_flag = ref_select(clear, obf, prefer)
     either = z_or(w_nonzero(clear), w_nonzero(obf))
@@ -811,7 +868,10 @@ META = {
         'connection type P / F / D', 'address given by the caller or fetched from the server; answer with or without the optional '
         'obfuscated-port fields; with or without a preceding foreign answer', 'obfuscation preference and caller obfuscate flag (booleans)',
         'cancellation: none / at each idle instant / before each loop step (one fork per step)',
-        'connect-back: TCP ok fast / slowly / refused / hangs / pierce write error / hangs'],
+        'connect-back: TCP ok fast / slowly / refused / hangs / pierce write error / hangs; pre-state: no connection / an ESTABLISHED '
+        'connection to the same user with the same type / same user other type / other user same type, built by the real accept path '
+        '(PeerInit) or by a completed create_peer_connection (the relation is imposed on the symbolic user / type of the request by '
+        'assumptions; its ticket stays independent)'],
     'bounds': {
         'quick': {'direct outcomes': '5 (+ 3 race jobs with the tie outcomes, all 12 alignments)', 'indirect outcomes': 6, 'both modes': True, 'caller-given address grid': 'all 60 pairs, type rotating',
                   'server-address grid': '3 x 4 pairs x 2 modes, foreign answer alternating', 'cancellation': 'every idle instant on all 60 pairs; '
@@ -881,12 +941,23 @@ def jobs(tier):
         if i == 'pierce_around_timeout':
             out['talign'] = list(tspan)
         return out
-    job('select_port', h_select_port, ['selected'])
+    job('select_port', h_select_port, ['select_port_called', 'selected'])
     for o in BACK:
         for shape in ('full', 'short'):
             job('connect_back', h_connect_back, ['connect_back_end', 'reported', 'port_beyond_65535_rejected'] + (
                 ['pierced'] if o in ('ok', 'ok_slow') else []),
                 outcome=o, shape=shape)
+    # ... while we already hold an ESTABLISHED connection to that user / of that type (accepted earlier, or opened by a request)
+    for pre in PRE_STATES[1:]:
+        for via in ('accepted', 'requested'):
+            for o in (('ok', 'refused') if q else BACK):
+                for shape in (('full',) if q else ('full', 'short')):
+                    if q and via == 'requested' and (pre, o) != ('same_user_same_type', 'ok'):
+                        continue
+                    # (pierced / reported are required of the jobs without pre-state; here the guard is that the pre-state was built
+                    # and the pierce-or-report obligation was evaluated)
+                    job('connect_back', h_connect_back, ['connect_back_end', 'connect_back_judged', 'earlier_connection_' + pre],
+                        outcome=o, shape=shape, pre=pre, via=via)
     directs = QD + ([] if q else ['tie', 'tie_refused', 'refused_slow', 'init_hang'])
     indirects = QI + ([] if q else ['send_hangs', 'stranger_then_pierce', 'pierce_then_cannot', 'pierce_at_timeout', 'pierce_after_timeout',
                                     'pierce_around_timeout'])
